@@ -2,9 +2,10 @@
    specification.  ExtrOcamlBasic only; N/nat/positive stay inductive. *)
 Require Extraction.
 Require Import ExtrOcamlBasic.
-From DV Require Import Lib.Base ObjTree.ObjTree ObjTree.Dispatch Spec.ObjtreeSpec Spec.ObjtreeSpecDispatch.
+From DV Require Import Lib.Base ObjTree.ObjTree ObjTree.Dispatch ObjTree.Decompose Spec.ObjtreeSpec Spec.ObjtreeSpecDispatch Spec.NamesSpec Proofs.ObjtreeDecompose.
 Extraction Language OCaml.
 Extraction "model_objtree.ml"
   tree_new step tree_dispatch list_registered handlers_for
   s_step s_dispatch s_children s_lookup s_offered
-  dispatch_message get_user_data free_all s_dispatch_message s_handlers.
+  dispatch_message get_user_data free_all s_dispatch_message s_handlers
+  decompose flatten spec_path path_elements.
